@@ -57,6 +57,14 @@ class Duck(object):
     name = "duck"
 
 
+class ReadOnlyDuck(object):
+    """Has parent / children like pathlib.PurePath has: read-only properties.  Not a node either."""
+
+    parent = property(lambda self: None)
+    children = property(lambda self: ())
+    name = "ro-duck"
+
+
 CUR = [None]  # the active universe (hooks of all harness classes report to it)
 
 
@@ -130,6 +138,9 @@ KINDS = {
     "linkto:all": ("trap:all", "trap:all", "symlink>a", "symlink>b"),
     # Node objects whose names (hence reprs and error messages) contain '%'
     "pctnode": ("pctnode",),
+    # the library's own Node and SymlinkNode classes WITHOUT harness hooks (hook methods the library itself may define on
+    # its classes are overridden in every other universe), links pointing into the same universe
+    "baresym": ("barenode", "barenode", "baresymlink>a", "baresymlink>b", "baresymlink>c"),
 }
 
 
@@ -204,13 +215,22 @@ class Universe(object):
             node.__init__(*args, **kw)
             return node
 
-        if ck.startswith("symlink"):
+        if ck.startswith("symlink") or ck.startswith("baresymlink"):
             if ">" in ck:
                 target = self.nodes[ck.split(">")[1]]
             else:
                 target = cls["node"]("t_" + lbl)
                 self.keep.append(target)
-            node = make(cls["symlink"], target)
+            if ck.startswith("bare"):
+                import anytree
+
+                node = make(anytree.SymlinkNode, target)
+            else:
+                node = make(cls["symlink"], target)
+        elif ck == "barenode":
+            import anytree
+
+            node = make(anytree.Node, lbl)
         elif ck == "node":
             node = make(cls["node"], lbl)
         elif ck == "pctnode":
@@ -296,6 +316,10 @@ class Universe(object):
             return ()
         if tok == "#duck":
             d = Duck()
+            self.keep.append(d)
+            return d
+        if tok == "#ro":
+            d = ReadOnlyDuck()
             self.keep.append(d)
             return d
         raise core.HarnessError("unknown token %r" % (tok,))
@@ -538,7 +562,7 @@ def ops_for(n, cfg):
             out.append(("setp", x, p))
     if cfg.get("nonnode", True):
         for x in labels:
-            for v in ("#5", "#s", "#duck", "#0", "#e", "#t"):   # truthy and falsy non-nodes
+            for v in ("#5", "#s", "#duck", "#0", "#e", "#t", "#ro"):   # truthy and falsy non-nodes
                 out.append(("setp", x, v))
     for x in labels:
         out.append(("delc", x))
@@ -560,6 +584,7 @@ def ops_for(n, cfg):
                 for y in labels:
                     out.append(("setc", x, (y, "#5"), "list"))
                     out.append(("setc", x, ("#s", y), "list"))
+                    out.append(("setc", x, (y, "#ro"), "list"))
                 out.append(("setc", x, "#None", "list"))
                 out.append(("setc", x, "#7", "list"))
                 out.append(("setc", x, "#str", "list"))
